@@ -20,7 +20,7 @@ import re
 
 import core
 
-PROOF_MODULES = ["UnytProofs.C06"]
+PROOF_MODULES = ["UnytProofs.C06", "UnytProofs.C06Alias", "UnytProofs.C06Methods"]
 HARNESS = os.path.dirname(os.path.abspath(__file__))
 
 UNIT_SETS = [("m", "s", "kg"), ("dimensionless", "dimensionless", "dimensionless"), ("cm", "cm", "cm")]
@@ -43,9 +43,11 @@ def diff_pass(job):
     dseed, units = job
     _setup()
     import npcatalog as C
+    import c06_alias as A
     import c06_diff as D
     import unyt._array_functions as AF
 
+    A.register()
     handled = {C.name_of(f) for f in AF._HANDLED_FUNCTIONS}
     stats = {}
     fails = {}
@@ -75,7 +77,13 @@ def diff_pass(job):
                         else:
                             whats = ["numpy-raises"]
                         detail = "NumPy raises on the bare data (" + d[:200] + ") but the call on quantities returns"
+                    ak = A.kind_of(t)
+                    if ak:
+                        stats[f"{ak}:{st}"] = stats.get(f"{ak}:{st}", 0) + 1
                     for w in whats:
+                        if ak == "mixed" and w == "values":
+                            # operands in DIFFERENT units: the units-guarded constant return answers
+                            w = "values@mixed-units"
                         if w == "int-out-retyped" and fid not in handled:
                             key = "ufunc-out|int-out-retyped"
                         else:
@@ -126,9 +134,11 @@ def record_defects(r, fwd=None, seen=None):
 def forwarding_pass(dseed):
     _setup()
     import npcatalog as C
+    import c06_alias as A
     import c06_trace as TR
     import unyt._array_functions as AF
 
+    A.register()
     handled = {C.name_of(f) for f in AF._HANDLED_FUNCTIONS}
     recs = []
     entered_ok = {}
@@ -153,6 +163,8 @@ def forwarding_pass(dseed):
                         continue
                     entered_ok[fid] = True
                     r["case"] = (t.tid, dk, sc, om)
+                    if A.kind_of(t):
+                        r["alias"] = (A.kind_of(t), A.slots_of(t.instantiate(dk, sc, dseed)))
                     recs.append(r)
     return dict(recs=recs, entered=sorted(entered_ok), other=seen_other)
 
@@ -220,7 +232,7 @@ def fwd_replay(tid, dk, sc, seed, om, defect):
         "import sys, warnings\nwarnings.simplefilter('ignore')\n"
         f"sys.path.insert(0, {HARNESS!r})\n"
         "import numpy as np\nnp.seterr(all='ignore')\n"
-        "import npcatalog as C, c06_trace as TR, c06 as H\n"
+        "import npcatalog as C, c06_trace as TR, c06 as H, c06_alias as A\nA.register()\n"
         f"t = [t for t in C.templates() if t.tid == {tid!r}][0]\n"
         f"r = TR.trace_case(t, {dk!r}, {sc!r}, {seed!r}, {om!r})\n"
         "import unyt._array_functions as AF\n"
@@ -250,9 +262,11 @@ def parse_render(s):
 def run(tier, seed):
     _setup()
     import npcatalog as C
+    import c06_alias as A
     import c06_diff as D
     import unyt._array_functions as AF
 
+    A.register()
     chk = core.Check("C06", tier, seed)
     chk.proof = core.prove("C06", PROOF_MODULES, extra_targets=("drv_c06",), tier=tier)
     rng = chk.rng
@@ -344,6 +358,7 @@ def run(tier, seed):
     nfs = 1 if tier == "quick" else 3
     fseeds = [1000 + seed * 17 + i for i in range(nfs)]
     lines, expect = [], []
+    alines, aexpect = [], []
     observed_entered = set()
     other = {}
     for fs in fseeds:
@@ -354,11 +369,19 @@ def run(tier, seed):
             tid, dk, sc, om = r["case"]
             chk.count("forwarding-cases")
             st_ = statics_by_func.get(r["func"])
+            al = r.get("alias")
+            if al is not None:
+                chk.count("forwarding-cases:" + al[0])
+                if r["calls"] or not r["outcome"].startswith("raise"):
+                    alines.append("\t".join(["c06.alias", r["func"], "1" if al[0] == "mixed" else "0"] + [f"{p}={i}" for p, i in al[1]]))
+                    aexpect.append(r)
+            if al is not None and al[0] == "mixed" and not r["calls"]:
+                continue  # operands in different units: a units-guarded exit may answer (compared with the model below)
             for d in record_defects(r, st_["fwd"] if st_ else None, st_["by_value_seen"] if st_ else None):
                 key = f"{r['func']}|{d}"
                 chk.fail(key, f"{tid} [{dk},{sc},out={om}]: kernel calls {r['calls']} parameters {r['params']} post {r['post']}",
                          {"python": fwd_replay(tid, dk, sc, fs, om, d), "defect": d})
-            if r["calls"] or not r["outcome"].startswith("raise"):
+            if al is None and (r["calls"] or not r["outcome"].startswith("raise")):
                 lines.append("\t".join(["c06.run", r["func"], r["variant"], r["sig"]] + [f"{k}={q}" for k, q in r["caller"]]))
                 expect.append(r)
     # dispatcher as observed: handled functions enter their handler; others never do
@@ -403,6 +426,60 @@ def run(tier, seed):
             if not ok:
                 chk.disagree("c06.run", f"{tid} [{r['case'][1:]}]: model {via} {rendered} post={post}; observed {r['calls'][0]} {r['render']} post={r['post']}")
 
+    # aliased / mixed-unit call forms: `Np.runGuarded` with the regenerated exits vs what the handler did
+    if model is not None and alines:
+        try:
+            areps = model.ask(alines)
+        except Exception as e:  # noqa: BLE001
+            areps = []
+            chk.disagree("driver", repr(e))
+        for rp, r in zip(areps, aexpect):
+            chk.count("model:c06.alias")
+            pred = rp[1] if len(rp) > 1 else "?"
+            obs = "call" if r["calls"] else "nokernel"
+            if rp[0] != "ok" or pred != obs:
+                chk.disagree("c06.alias", f"{r['case'][0]} [{r['case'][1:]}] slots {r['alias'][1]}: model (runGuarded with the regenerated exits) {rp}; "
+                                          f"the handler made the kernel calls {r['calls']} (outcome {r['outcome']})")
+            elif obs == "call" and (r["calls"][0][1] != r["func"]):
+                chk.disagree("c06.alias", f"{r['case'][0]}: model predicts the kernel of {r['func']}; observed {r['calls']}")
+
+    # ------------------------------------------------------------ pre-kernel decision logic (ast) as direct observation
+    try:
+        XA = json.load(open(os.path.join(core.BUILD, "extract_c06_alias.json"), encoding="utf-8"))
+    except Exception as e:  # noqa: BLE001
+        XA = None
+        chk.disagree("translator", f"build/extract_c06_alias.json unreadable: {e!r}")
+    if XA:
+        chk.extra["alias_rows"] = len(XA["rows"])
+        if model is not None:
+            try:
+                er = model.ask([f"c06.exits\t{f}" for f in XA["exits"]])
+            except Exception as e:  # noqa: BLE001
+                er = []
+                chk.disagree("driver", repr(e))
+            for (f, es), rp in zip(XA["exits"].items(), er):
+                want = ";".join(f"{e['kind']}:{'true' if e['raises'] else 'false'}:{e['src'][:120]}" for e in es)
+                got = rp[1] if len(rp) > 1 else ""
+                chk.case(("exits", f))
+                if rp[0] != "ok" or got != want:
+                    chk.disagree("c06.exits", f"{f}: model table {rp} translator {want!r}")
+        for f, es in XA["exits"].items():
+            for e in es:
+                chk.count("exit:" + e["kind"])
+                if e["kind"] == "identity":
+                    chk.fail(f"{f}|identity-test", f"the handler of {f} (or a helper it calls) decides on operand identity / memory overlap: `{e['src']}`"
+                             " — f(x, x) need not compute what f(x, x.copy()) computes",
+                             {"python": "import sys\n" f"sys.path.insert(0, {HARNESS!r})\n"
+                                        "import numpy as np, c06_alias as A, unyt._array_functions as AF\n"
+                                        f"es = A.static_exits(AF._HANDLED_FUNCTIONS[{_expr(f)}])\nprint(es)\n"
+                                        "assert not [e for e in es if e['kind'] == 'identity'], es\n"})
+
+    # ------------------------------------------------------------ ndarray-method overrides (array.py)
+    try:
+        methods_section(chk, model, known, seed)
+    except Exception as e:  # noqa: BLE001
+        chk.disagree("c06.method", f"method-override section raised {e!r}")
+
     # ------------------------------------------------------------ differential pass (O1)
     if tier == "quick":
         jobs = [(2000 + seed * 31 + i, UNIT_SETS[i % 2]) for i in range(4)] + [(2000 + seed * 31 + 4, UNIT_SETS[2])]
@@ -444,6 +521,96 @@ def run(tier, seed):
             "call templates (positional/keyword/out=) × shapes {0-d,1-d,2-d,square,empty} × {float64,int64,complex128} × out buffer {unyt,bare} × "
             "unit assignments × seeded data; distinct = (template, shape, dtype, out mode, unit set) on which both NumPy and unyt returned (so values were compared bit for bit)")
     return chk.finish(rule)
+
+
+# delegations NumPy documents as equivalent to the method (mirror of Ref.methodEquivC06; compared on every run)
+METHOD_EQUIV = {"ndarray.copy|calls:numpy.copy", "ndarray.take|calls:numpy.take"}
+
+
+def _render_row(r):
+    if r["target"] is None:
+        return "nokernel"
+    parts = []
+    for p, v in r["params"]:
+        if v in ("same",):
+            parts.append(f"{p}=~{p}")
+        elif v == "sameRaw":
+            parts.append(f"{p}={p}")
+        elif v in ("changed", "copied"):
+            parts.append(f"{p}=?{p}")
+    parts += [f"{p}=?{p}" for p, v in r["params"] if v == "injected"]
+    return r["target"] + "(" + ",".join(parts) + ")"
+
+
+def methods_section(chk, model, known, seed):
+    """the ndarray-method overrides: regenerated rows read back from the model, compared with a fresh ast pass over
+    the live classes and with the kernels a call really reaches; their defects are a direct oracle"""
+    import npcatalog as C
+    import c06_alias as A
+    import c06_methods as M
+    import unyt
+
+    uni = M.override_universe()
+    names = sorted({"ndarray." + n for _c, n in uni})
+    live = {}
+    for cn, n in uni:
+        live.setdefault("ndarray." + n, []).extend(M.method_static(getattr(unyt, cn), n))
+    if model is not None:
+        rep = model.ask(["c06.method.names", "c06.method.exclusions"] + [f"c06.method\t{m}" for m in names])
+        got_names = rep[0][1].split(";") if len(rep[0]) > 1 and rep[0][1] else []
+        if got_names != names:
+            chk.disagree("c06.method.names", f"model {got_names} live classes {names}")
+        excl = set(rep[1][1].split(";")) if len(rep[1]) > 1 and rep[1][1] else set()
+        equiv = set(rep[1][2].split(";")) if len(rep[1]) > 2 and rep[1][2] else set()
+        known_m = {k["key"] for k in known if k.get("kind") == "method-forwarding"}
+        if excl != known_m:
+            chk.disagree("exclusions", f"Ref.exclC06Methods {sorted(excl)} and the method-forwarding findings {sorted(known_m)} differ")
+        if equiv != METHOD_EQUIV:
+            chk.disagree("exclusions", f"Ref.methodEquivC06 {sorted(equiv)} differs from the harness list {sorted(METHOD_EQUIV)}")
+        for m, rp in zip(names, rep[2:]):
+            chk.case(("method-row", m))
+            want = ";".join(f"{r['variant']}|{r['receiver']}|{_render_row(r)}|" +
+                            ",".join(d for d in M.record_defects(r) if f"{m}|{d}" not in METHOD_EQUIV) for r in live[m])
+            if rp[0] != "ok" or (rp[1] if len(rp) > 1 else "") != want:
+                chk.disagree("c06.method", f"{m}: model (Np.run on the regenerated rows) {rp[1:]} fresh ast pass {want!r}")
+    # direct oracle: defects of the live overrides
+    for m, rs in live.items():
+        for r in rs:
+            chk.count("method-rows")
+            for d in M.record_defects(r):
+                if f"{m}|{d}" in METHOD_EQUIV:
+                    continue
+                chk.fail(f"{m}|{d}", f"override {r['variant'].split('#')[0]}.{m.split('.', 1)[1]} delegates to {r['target']} ({r['receiver']}) with parameters {r['params']}",
+                         {"python": "import sys\n" f"sys.path.insert(0, {HARNESS!r})\n"
+                                    "import unyt, c06_methods as M\n"
+                                    f"rs = M.method_static(unyt.{r['variant'].split('#')[0]}, {m.split('.', 1)[1]!r})\nprint(rs)\n"
+                                    f"assert not any({d!r} in M.record_defects(r) for r in rs)\n", "defect": d})
+    for cn, n in uni:
+        for e in A.static_exits(getattr(unyt, cn).__dict__[n]):
+            if e["kind"] == "identity":
+                chk.fail(f"ndarray.{n}|identity-test", f"{cn}.{n} decides on operand identity / memory overlap: `{e['src']}`",
+                         {"python": "import sys\n" f"sys.path.insert(0, {HARNESS!r})\n"
+                                    "import unyt, c06_alias as A\n"
+                                    f"es = A.static_exits(unyt.{cn}.__dict__[{n!r}])\nprint(es)\n"
+                                    "assert not [e for e in es if e['kind'] == 'identity'], es\n"})
+    # dynamic tie of the `calls` column: the kernel a call of the override really reaches
+    for t in C.templates("method"):
+        if t.func not in live or A.kind_of(t):
+            continue
+        n = t.func.split(".", 1)[1]
+        if n.startswith("__"):
+            chk.count("method-kernel:dunder-not-observable")   # slot wrappers raise no c_call event
+            continue
+        for sc in t.shapes[:2]:
+            obs = M.observe_kernels(t, t.dtypes[0], sc, 4000 + seed)
+            if obs is None:
+                continue
+            chk.case(("method-kernel", t.tid, sc))
+            chk.count("method-kernel:observed")
+            targets = {r["target"] for r in live[t.func] if r["target"]}
+            if not (targets & obs):
+                chk.disagree("c06.method", f"{t.tid} [{sc}]: the rows say the override delegates to {sorted(targets)}; "
+                                           f"observed kernels named {n}: {sorted(x for x in obs if x.endswith('.' + n))}")
 
 
 def _expr(fid):
